@@ -161,7 +161,7 @@ class SccContext:
 
   def backspace(self):
     """Move the cursors in a column to the left"""
-    self.get_caption_to_process().get_current_text().backspace()
+    self.get_caption_to_process().get_current_line().backspace()
     (row, indent) = self.get_caption_to_process().get_cursor()
     self.get_caption_to_process().set_cursor_at(row, max(indent - 1, 0))
 
